@@ -140,13 +140,13 @@ func facts(f *hc.Facts) {
 	// `len(parts) < 2`: the guard itself, translated (a0 = len(parts))
 	var fewParts ast.Expr
 	if fd != nil {
-		for _, c := range hc.IfConds(fd.Body) {
+		for _, c := range hc.C20IfConds(fd.Body) {
 			if strings.Contains(f.Src(c), "len(") && fewParts == nil {
 				fewParts = c
 			}
 		}
 	}
-	f.TranslateExprAuto("tooFewParts", "tgerr", fewParts, hc.ExprOpt{})
+	f.C20TranslateExpr("tooFewParts", "tgerr", fewParts, hc.C20ExprOpt{})
 	f.TranslateFuncs("ascii", "isDigit", "IsDigit")
 
 	// flood wait: constants, the list, the unit and the margin
@@ -200,7 +200,7 @@ func facts(f *hc.Facts) {
 			return true
 		})
 	}
-	f.TranslateExprAuto("floodDuration", "tgerr", durExpr, hc.ExprOpt{})
+	f.C20TranslateExpr("floodDuration", "tgerr", durExpr, hc.C20ExprOpt{})
 	// FloodWait: the argument of clock.Timer(...) as a function of d
 	var timerArg ast.Expr
 	if fd := f.FuncDecl("tgerr", "FloodWait"); fd != nil {
@@ -213,7 +213,7 @@ func facts(f *hc.Facts) {
 			return true
 		})
 	}
-	f.TranslateExprAuto("floodTimerArg", "tgerr", timerArg, hc.ExprOpt{})
+	f.C20TranslateExpr("floodTimerArg", "tgerr", timerArg, hc.C20ExprOpt{})
 }
 
 // ---- implementation adapters ------------------------------------------------------------
